@@ -1519,3 +1519,226 @@ Proof.
   destruct r as [v|]; auto.
   destruct (value_spec _ (PO _) rk _ _ _ _ _ (conj I Rk) O) as (He & _). exact He.
 Qed.
+
+(* ------------------------------------------------------------------------------------------ *)
+(** * Part 9: the panic table carried through the cache invariant — three-outcome freshness, both directions *)
+
+Lemma eval_p_S pan f g n : eval_p pan (S f) g n =
+  match nth_error g n with
+  | None => None
+  | Some (GParam v) => Some (POk v)
+  | Some (GStruct ins proc) =>
+      do oxs <- pports (eval_p pan f g) ins;
+      match oxs with
+      | None => Some PPanic
+      | Some xs => if pan n xs then Some PPanic else Some (POk (proc xs))
+      end
+  end.
+Proof. reflexivity. Qed.
+
+Lemma plist_all_ok {A} (f : A -> option pres) (g : A -> val) l :
+  (forall d, In d l -> f d = Some (POk (g d))) -> plist f l = Some (Some (map g l)).
+Proof.
+  induction l; simpl; intros H; auto. rewrite H by auto. simpl. rewrite IHl by auto. reflexivity.
+Qed.
+Lemma pports_all_ok (f : id -> option pres) (g : id -> val) ps :
+  (forall d, In d (concat ps) -> f d = Some (POk (g d))) -> pports f ps = Some (Some (map (map g) ps)).
+Proof.
+  induction ps; simpl; intros H; auto.
+  rewrite (plist_all_ok f g) by (intros; apply H, in_or_app; auto). simpl.
+  rewrite IHps by (intros; apply H, in_or_app; auto). reflexivity.
+Qed.
+
+(* node_inv plus: the processor does not panic on the remembered input values *)
+Definition node_invP (pan : pantab) (st : store) (n : id) (sn : snode) : Prop :=
+  forall dv, sn_depvers sn = Some dv -> sn_dirty sn = false ->
+  exists (sv : id -> nat) (sx : id -> val) (l : list dep),
+    Permutation l (raw_deps (sn_ports sn)) /\
+    dv = map sv (map snd l) /\
+    sn_cache sn = sn_proc sn (map (map sx) (ids_of sn)) /\
+    (forall d, In d (deps_ids sn) -> sv d <= verT st d /\ (sv d = verT st d -> sx d = outT st d)) /\
+    pan n (map (map sx) (ids_of sn)) = false.
+Definition InvP (pan : pantab) (st : store) : Prop :=
+  forall n sn, nth_error st n = Some (Struct sn) -> node_invP pan st n sn.
+
+Lemma InvP_Inv pan st : InvP pan st -> Inv st.
+Proof.
+  intros H n sn En dv Hd Hc. destruct (H n sn En dv Hd Hc) as (sv & sx & l & P & E & C & M & _).
+  exists sv, sx, l. auto.
+Qed.
+
+Lemma node_invP_mono pan st st' n sn :
+  (forall m, verT st m <= verT st' m /\ (verT st m = verT st' m -> outT st' m = outT st m)) ->
+  node_invP pan st n sn -> node_invP pan st' n sn.
+Proof.
+  intros V H dv Hd Hc. destruct (H dv Hd Hc) as (sv & sx & l & P & E & C & M & Q).
+  exists sv, sx, l. repeat split; auto; destruct (M d H0) as [L Q0], (V d) as [L' Q'].
+  - lia.
+  - intros E'. rewrite Q', Q0; auto; lia.
+Qed.
+
+Lemma stale_false_evalp po pan : perm_ok po -> forall f st n, InvP pan st -> stale po f st n = Some false ->
+  eval_p pan f (graph_of st) n = Some (POk (outT st n)).
+Proof.
+  intros PO. induction f; intros st n I H; [discriminate|].
+  rewrite stale_S in H. rewrite eval_p_S, graph_nth. unfold outT.
+  destruct (nth_error st n) as [[ver w sets|sn]|] eqn:En; simpl; auto; [|discriminate].
+  destruct (sn_depvers sn) as [dv|] eqn:Edv; [|discriminate].
+  destruct (sn_dirty sn) eqn:Ed; [discriminate|].
+  destruct (I _ _ En dv Edv Ed) as (sv & sx & l & P & E & C & M & Q).
+  pose proof (PO Cmp n (raw_deps (sn_ports sn))) as Pc.
+  set (lc := po Cmp n (raw_deps (sn_ports sn))) in *.
+  apply cmp_deps_false in H.
+  2:{ subst dv. rewrite !map_length.
+      etransitivity; [exact (Permutation_length Pc) | symmetry; exact (Permutation_length P)]. }
+  destruct H as [Hv Hs].
+  assert (Hsum : list_sum (map sv (deps_ids sn)) = list_sum (map (verT st) (deps_ids sn))).
+  { rewrite <- map_snd_raw_deps_sn.
+    rewrite <- (list_sum_perm _ _ (Permutation_map sv (Permutation_map snd P))).
+    rewrite <- (list_sum_perm _ _ (Permutation_map (verT st) (Permutation_map snd Pc))).
+    congruence. }
+  assert (Heq : forall d, In d (deps_ids sn) -> sv d = verT st d).
+  { apply sum_pointwise_eq; auto. intros; apply M; auto. }
+  assert (Hev : forall d, In d (deps_ids sn) -> eval_p pan f (graph_of st) d = Some (POk (sx d))).
+  { intros d Hd. destruct (M d Hd) as [_ Q0]. rewrite (Q0 (Heq d Hd)). apply IHf; auto.
+    apply Hs. eapply Permutation_in; [apply Permutation_sym, (Permutation_map snd Pc)|].
+    rewrite map_snd_raw_deps_sn; auto. }
+  rewrite (pports_all_ok _ sx) by exact Hev. simpl. rewrite Q. congruence.
+Qed.
+
+(* what process() has in hand when every input was read successfully *)
+Lemma exec_commit_facts po rk : perm_ok po -> forall f0 st n sn st1 ins,
+  Pre rk st -> nth_error st n = Some (Struct sn) ->
+  read_ports (value po f0) st (ids_of sn) = Some (st1, ins) ->
+  ins = map (map (outT st1)) (ids_of sn) /\ nth_error st1 n = Some (Struct sn).
+Proof.
+  intros PO f0 st n sn st1 ins HP En Hr.
+  assert (Hrk : forall d, In d (concat (ids_of sn)) -> rk d < rk n).
+  { intros d Hd. eapply (proj2 HP); [|exact Hd]. rewrite graph_nth, En. reflexivity. }
+  assert (Rrd : forall s d s' x, rk d < rk n -> value po f0 s d = Some (s', x) -> RR rk (rk n) s s').
+  { intros s d s' x Hd Hval Ps. destruct (value_spec po PO rk _ _ _ _ _ Ps Hval) as (_ & _ & P' & Fr & Lo).
+    split; auto. split; auto. intros m Hm. apply Lo. lia. }
+  assert (HD : Forall (Forall (fun d => rk d < rk n)) (ids_of sn)) by (apply Forall_nested_concat; auto).
+  destruct (read_ports_split (value po f0) (RR rk (rk n)) (fun d => rk d < rk n) (RR_refl rk _) (RR_trans rk _) Rrd
+              (ids_of sn) st st1 ins HD Hr) as [R1 F1].
+  destruct (R1 HP) as (P1 & (G1 & _ & _) & Lo1).
+  split; [|rewrite Lo1; auto].
+  apply Forall2_nested_map_eq. eapply Forall2_nested_impl; [|exact F1].
+  intros d x (sa & sb & Ra & Hval & Rb).
+  destruct (Ra HP) as (Pa & (Ga & _ & _) & _).
+  destruct (value_spec po PO rk _ _ _ _ _ Pa Hval) as (He & Ho & Pb & (Gb & _ & _) & _).
+  destruct (Rb Pb) as (_ & (Gc & _ & Fc) & _).
+  destruct (Fc d) as [f2 H2].
+  { exists f0. rewrite Gb, Ho. exact He. }
+  rewrite Gc, Gb in H2. eapply eval_det; eauto.
+Qed.
+
+Section Full.
+  Variable po : order.
+  Hypothesis ST : stable po.
+  Variable pan : pantab.
+  Variable rk : id -> nat.
+  Let PO : perm_ok po := proj1 ST.
+
+  Definition PreP (st : store) : Prop := Pre rk st /\ InvP pan st.
+  Definition KX (st st' : store) : Prop := Kc po st st' /\ Xc po st st'.
+
+  Lemma KX_refl st : KX st st.
+  Proof. split; [apply Kc_refl|]. intros n H; congruence. Qed.
+  Lemma KX_trans a b c : KX a b -> KX b c -> KX a c.
+  Proof.
+    intros [K1 X1] [K2 X2]. split; [eapply Kc_trans; eauto|].
+    intros n H. destruct (Nat.eq_dec (execs_of c n) (execs_of b n)) as [E|E].
+    - apply K2, X1. congruence.
+    - apply X2; auto.
+  Qed.
+
+  Variable f0 : nat.
+  Hypothesis IH : forall st n st' r, PreP st -> pvalue po pan f0 st n = Some (st', r) ->
+    InvP pan st' /\ eval_p pan f0 (graph_of st) n = Some r /\ KX st st'.
+
+  Lemma pread_list_full : forall l st st1 oxs, PreP st -> pread_list (pvalue po pan f0) st l = Some (st1, oxs) ->
+    InvP pan st1 /\ plist (eval_p pan f0 (graph_of st)) l = Some oxs /\ KX st st1.
+  Proof.
+    induction l as [|d r IHl]; simpl; intros st st1 oxs HP H.
+    - injection H as <- <-. split; [apply HP|]. split; auto. apply KX_refl.
+    - apply bind_some in H as [[sa x] [E1 H]].
+      destruct (IH _ _ _ _ HP E1) as (I1 & Ev1 & K1).
+      destruct (pvalue_sim po pan rk PO _ _ _ _ _ (proj1 HP) E1) as [(P1 & G1 & _) _].
+      rewrite Ev1. simpl. destruct x as [v|].
+      + apply bind_some in H as [[sb xs] [E2 H]]. injection H as <- <-.
+        destruct (IHl _ _ _ (conj P1 I1) E2) as (I2 & Ev2 & K2). rewrite G1 in Ev2. rewrite Ev2. simpl.
+        split; auto. split; auto. eapply KX_trans; eauto.
+      + injection H as <- <-. auto.
+  Qed.
+
+  Lemma pread_ports_full : forall ps st st1 oxss, PreP st -> pread_ports (pvalue po pan f0) st ps = Some (st1, oxss) ->
+    InvP pan st1 /\ pports (eval_p pan f0 (graph_of st)) ps = Some oxss /\ KX st st1.
+  Proof.
+    induction ps as [|l r IHp]; simpl; intros st st1 oxss HP H.
+    - injection H as <- <-. split; [apply HP|]. split; auto. apply KX_refl.
+    - apply bind_some in H as [[sa oxs] [E1 H]].
+      destruct (pread_list_full _ _ _ _ HP E1) as (I1 & Ev1 & K1).
+      assert (IHsim : forall st n st' r, Pre rk st -> pvalue po pan f0 st n = Some (st', r) ->
+                psim rk st st' /\ match r with POk v => value po f0 st n = Some (st', v) | PPanic => genuine pan (graph_of st) end)
+        by (intros; eapply pvalue_sim; eauto).
+      destruct (pread_list_sim po pan rk f0 IHsim _ _ _ _ (proj1 HP) E1) as [(P1 & G1 & _) _].
+      rewrite Ev1. simpl. destruct oxs as [xs|].
+      + apply bind_some in H as [[sb xss] [E2 H]]. injection H as <- <-.
+        destruct (IHp _ _ _ (conj P1 I1) E2) as (I2 & Ev2 & K2). rewrite G1 in Ev2. rewrite Ev2. simpl.
+        split; auto. split; auto. eapply KX_trans; eauto.
+      + injection H as <- <-. auto.
+  Qed.
+End Full.
+
+(* the full specification of a read with panicking processors *)
+Lemma pvalue_full po pan rk : stable po -> forall f st n st' r,
+  PreP pan rk st -> pvalue po pan f st n = Some (st', r) ->
+  InvP pan st' /\ eval_p pan f (graph_of st) n = Some r /\ KX po st st'.
+Proof.
+  intros ST. pose proof (proj1 ST) as PO.
+  induction f as [|f0 IH]; intros st n st' r HP H; [discriminate|].
+  pose proof (pvalue_sim po pan rk PO _ _ _ _ _ (proj1 HP) H) as [(P' & G' & _) Osim].
+  rewrite pvalue_S in H. rewrite eval_p_S, graph_nth.
+  destruct (nth_error st n) as [[ver w sets|sn]|] eqn:En; [| |discriminate].
+  - injection H as <- <-. simpl. split; [apply HP|]. split; auto. apply KX_refl.
+  - apply bind_some in H as [o [Es H]]. simpl. destruct o.
+    + apply bind_some in H as [[st1 oins] [Ep H]].
+      destruct (pread_ports_full po ST pan rk f0 IH _ _ _ _ HP Ep) as (I1 & Ev1 & K1).
+      rewrite Ev1. simpl.
+      destruct oins as [ins|].
+      * destruct (pan n ins) eqn:Epan.
+        -- injection H as <- <-. auto.
+        -- apply bind_some in H as [vers [Ev H]]. injection H as <- <-.
+           split; [|split; auto].
+           ++ (* the extended invariant after the commit *)
+              assert (IHsim : forall st n st' r, Pre rk st -> pvalue po pan f0 st n = Some (st', r) ->
+                        psim rk st st' /\ match r with POk v => value po f0 st n = Some (st', v) | PPanic => genuine pan (graph_of st) end)
+                by (intros; eapply pvalue_sim; eauto).
+              destruct (pread_ports_sim po pan rk f0 IHsim _ _ _ _ (proj1 HP) Ep) as [_ Hrp].
+              destruct (exec_commit_facts po rk PO _ _ _ _ _ _ (proj1 HP) En Hrp) as [Hins En1].
+              assert (Hlt : n < length st1) by (eapply nth_error_some_lt; eauto).
+              set (sn' := exec_node sn (sn_proc sn ins) vers).
+              assert (V : forall m, verT st1 m <= verT (set_nth n (Struct sn') st1) m /\
+                                    (verT st1 m = verT (set_nth n (Struct sn') st1) m ->
+                                     outT (set_nth n (Struct sn') st1) m = outT st1 m)).
+              { intros m. destruct (Nat.eq_dec n m) as [<- | Hne].
+                - unfold verT, ver_of. rewrite nth_error_set_nth_eq, En1 by auto. simpl. split; [lia|]. intros; lia.
+                - rewrite verT_set_nth_neq, outT_set_nth_neq; auto. }
+              intros k snk Ek. destruct (Nat.eq_dec n k) as [<- | Hne].
+              ** rewrite nth_error_set_nth_eq in Ek by auto. injection Ek as <-.
+                 intros dv Hdv _. simpl in Hdv. injection Hdv as <-.
+                 exists (verT st1), (outT st1), (po Rec n (raw_deps (sn_ports sn))).
+                 split; [apply PO|]. split; [|split; [|split]].
+                 --- eapply map_opt_is_map; [exact Ev|]. intros d w _ Hw. unfold verT. rewrite Hw. auto.
+                 --- simpl. unfold ids_of at 1. simpl. fold (ids_of sn). congruence.
+                 --- intros d _. destruct (V d) as [L Q]. split; auto. intros E'. symmetry. auto.
+                 --- unfold ids_of at 1. simpl. fold (ids_of sn). rewrite <- Hins. exact Epan.
+              ** rewrite nth_error_set_nth_neq in Ek; auto. eapply node_invP_mono; [exact V|]. apply (I1 _ _ Ek).
+           ++ (* clean nodes untouched, executed nodes clean: it is a read of the panic-free model *)
+              split; [eapply value_keeps; eauto | eapply value_exec_clean; eauto; apply HP].
+      * injection H as <- <-. auto.
+    + injection H as <- <-. split; [apply HP|]. split; [|apply KX_refl].
+      pose proof (stale_false_evalp po pan PO _ _ _ (proj2 HP) Es) as He.
+      rewrite eval_p_S, graph_nth, En in He. simpl in He. unfold outT in He. rewrite En in He. exact He.
+Qed.
